@@ -324,3 +324,26 @@ def sec_index(sec: T.Sec) -> int:
         if sec.res._sec_cache.get((T.def_key(sec.d), i)) is sec:
             return i
     return 0
+
+
+def hostile_client(types) -> int:
+    """A client that obtained the list-valued accessors of the given composites earlier and edited its copies in place
+    (sorted, filtered, concatenated): the library's later answers about the same type objects must not depend on that.
+    Returns the number of lists modified."""
+    n = 0
+    for t in types:
+        parts = [t.request_type, t.response_type] if isinstance(t, pydsdl.ServiceType) else [t]
+        for p0 in parts:
+            for obj in (p0, getattr(p0, "inner_type", p0)):
+                for acc in ("fields", "fields_except_padding", "attributes", "constants"):
+                    try:
+                        lst = getattr(obj, acc)
+                    except Exception:
+                        continue
+                    if isinstance(lst, list):
+                        lst.reverse()
+                        lst.extend(lst[:1])
+                        if len(lst) > 1:
+                            lst.pop(0)
+                        n += 1
+    return n
